@@ -178,6 +178,7 @@ func runC09(c *eng.Ctx) {
 	runC09Stress(c, next)
 	runC09Sched(c, next)
 	runC09SharedCode(c, next)
+	runC09FaultedConstruction(c, next)
 }
 
 func runC09Stress(c *eng.Ctx, next func() (int, bool)) {
